@@ -14,7 +14,19 @@ use std::collections::HashMap;
 use walrus::ir::*;
 use walrus::*;
 
-struct St { r: Rng, idmap: HashMap<InstrSeqId, InstrSeqId>, n_at: u64, n_dangling: u64, n_calls: u64 }
+struct St { r: Rng, idmap: HashMap<InstrSeqId, InstrSeqId>, pre: HashMap<InstrSeqId, InstrSeqId>, n_at: u64, n_dangling: u64, n_early: u64, n_calls: u64 }
+
+/// all sequences of the subtree rooted at `s`, and all branch targets used inside it
+fn subtree(orig: &LocalFunction, s: InstrSeqId, seqs: &mut Vec<InstrSeqId>, targets: &mut Vec<InstrSeqId>) {
+    seqs.push(s);
+    for (i, _) in &orig.block(s).instrs { match i {
+        Instr::Block(Block { seq }) | Instr::Loop(Loop { seq }) => subtree(orig, *seq, seqs, targets),
+        Instr::IfElse(IfElse { consequent, alternative }) => { subtree(orig, *consequent, seqs, targets); subtree(orig, *alternative, seqs, targets); }
+        Instr::Br(b) => targets.push(b.block), Instr::BrIf(b) => targets.push(b.block),
+        Instr::BrTable(b) => { targets.extend(b.blocks.iter().cloned()); targets.push(b.default); }
+        _ => {} } }
+}
+
 
 fn remap(i: &Instr, m: &HashMap<InstrSeqId, InstrSeqId>) -> Instr {
     match i {
@@ -30,11 +42,26 @@ fn replay(b: &mut InstrSeqBuilder, orig: &LocalFunction, src: InstrSeqId, st: &R
     st.borrow_mut().idmap.insert(src, b.id());
     let items: Vec<Instr> = orig.block(src).instrs.iter().map(|(i, _)| i.clone()).collect();
     let n = items.len();
+    let mut calls = vec![];
+    // "late attach": a block/loop that sits two levels further down is created NOW, as a dangling sequence, i.e. BEFORE the
+    // sequence that will enclose it exists (so sequence ids are not monotone along the nesting), and is attached when its place is reached
+    for it in &items { if let Instr::Block(Block { seq: c }) | Instr::Loop(Loop { seq: c }) = it {
+        for (g_it, _) in &orig.block(*c).instrs { if let Instr::Block(Block { seq: g }) | Instr::Loop(Loop { seq: g }) = g_it {
+            if !st.borrow_mut().r.chance(1, 3) || st.borrow().pre.contains_key(g) { continue; }
+            let (mut seqs, mut targets) = (vec![], vec![]); subtree(orig, *g, &mut seqs, &mut targets);
+            let ok = targets.iter().all(|t| seqs.contains(t) || st.borrow().idmap.contains_key(t));   // its body may only mention labels that exist already
+            if !ok { continue; }
+            let ty = orig.block(*g).ty;
+            let (id, body) = { let mut d = b.dangling_instr_seq(ty); let id = d.id(); let body = replay(&mut d, orig, *g, st); (id, body) };
+            st.borrow_mut().pre.insert(*g, id); st.borrow_mut().n_early += 1;
+            calls.push(format!("BDangling ({}) [{}]", irdump::seqty_coq(&ty), body.join("; ")));
+        } }
+    } }
     // insertion order: in order (append) or a random permutation (positional inserts)
     let permute = st.borrow_mut().r.chance(1, 2);
     let mut order: Vec<usize> = (0..n).collect();
     if permute { for k in (1..n).rev() { let j = st.borrow_mut().r.usize(k + 1); order.swap(k, j); } }
-    let mut placed: Vec<usize> = vec![]; let mut calls = vec![];
+    let mut placed: Vec<usize> = vec![];
     for &k in &order {
         let pos = placed.iter().filter(|p| **p < k).count(); placed.push(k);
         let at_end = pos == placed.len() - 1;
@@ -46,7 +73,12 @@ fn replay(b: &mut InstrSeqBuilder, orig: &LocalFunction, src: InstrSeqId, st: &R
                 let is_loop = matches!(&items[k], Instr::Loop(_));
                 let ty = orig.block(*seq).ty; let child = *seq;
                 let dangling = st.borrow_mut().r.chance(1, 4);
-                if dangling {
+                let early = st.borrow().pre.get(&child).cloned();
+                if let Some(id) = early {
+                    let ins: Instr = if is_loop { Instr::Loop(Loop { seq: id }) } else { Instr::Block(Block { seq: id }) };
+                    let term = irdump::instr_coq(&ins);
+                    if use_at { b.instr_at(pos, ins); calls.push(format!("BInstrAt {} ({})", pos, term)); } else { b.instr(ins); calls.push(format!("BInstr ({})", term)); }
+                } else if dangling {
                     st.borrow_mut().n_dangling += 1;
                     let (id, body) = { let mut d = b.dangling_instr_seq(ty); let id = d.id(); let body = replay(&mut d, orig, child, st); (id, body) };
                     calls.push(format!("BDangling ({}) [{}]", irdump::seqty_coq(&ty), body.join("; ")));
@@ -87,7 +119,7 @@ pub fn main(args: &[String]) {
     let mut w = CaseWriter::new(out_dir, "c15", header, "kcase", "check_builder", 40);
     let feats = env::walrus_features(false);
     let mut viol: Vec<Json> = vec![]; let mut samples = vec![];
-    let (mut n_gen, mut n_invalid, mut n_funcs, mut n_at, mut n_dang, mut n_calls) = (0u64, 0u64, 0u64, 0u64, 0u64, 0u64);
+    let (mut n_gen, mut n_invalid, mut n_funcs, mut n_at, mut n_dang, mut n_calls, mut n_early) = (0u64, 0u64, 0u64, 0u64, 0u64, 0u64, 0u64);
     let mut distinct = std::collections::HashSet::new();
     while (n_gen as usize) < n_modules {
         n_gen += 1;
@@ -99,7 +131,7 @@ pub fn main(args: &[String]) {
         let ids: Vec<FunctionId> = module.funcs.iter_local().map(|(id, _)| id).collect();
         let mut pairs: Vec<(FunctionId, FunctionId, String)> = vec![];
         for fid in ids {
-            let st = RefCell::new(St { r: r.fork(), idmap: HashMap::new(), n_at: 0, n_dangling: 0, n_calls: 0 });
+            let st = RefCell::new(St { r: r.fork(), idmap: HashMap::new(), pre: HashMap::new(), n_at: 0, n_dangling: 0, n_early: 0, n_calls: 0 });
             let res = catch(|| {
                 let (params, results, args) = { let lf = module.funcs.get(fid).kind.unwrap_local(); let t = module.types.get(lf.ty()); (t.params().to_vec(), t.results().to_vec(), lf.args.clone()) };
                 let mut fb = FunctionBuilder::new(&mut module.types, &params, &results);
@@ -111,7 +143,7 @@ pub fn main(args: &[String]) {
                 Some((new_id, calls)) => { module.exports.add(&format!("rebuilt{}", new_id.index()), new_id); pairs.push((fid, new_id, calls.join("; "))); }
                 None => viol.push(Json::obj(vec![("class", Json::s("builder-panics")), ("props", Json::s("C15")), ("what", Json::s("the builder API panics while re-building a parsed function")), ("input", Json::s(crate::c03::hex(&wasm)))])),
             }
-            let s = st.borrow(); n_at += s.n_at; n_dang += s.n_dangling; n_calls += s.n_calls;
+            let s = st.borrow(); n_at += s.n_at; n_dang += s.n_dangling; n_calls += s.n_calls; n_early += s.n_early;
         }
         let obs = match catch(|| observe_module(module)) { Some(Ok(o)) => o, Some(Err(e)) => { viol.push(Json::obj(vec![("class", Json::s("emit-fails-after-build")), ("props", Json::s("C15 C02")), ("what", Json::s(e)), ("input", Json::s(crate::c03::hex(&wasm)))])); continue; }
             None => { viol.push(Json::obj(vec![("class", Json::s("emit-panics-after-build")), ("props", Json::s("C15 C02")), ("what", Json::s("emit_wasm panics after functions were built with the builder API")), ("input", Json::s(crate::c03::hex(&wasm)))])); continue; } };
@@ -144,7 +176,7 @@ pub fn main(args: &[String]) {
     }
     w.finish();
     let meta = Json::obj(vec![("modules_generated", Json::n(n_gen as f64)), ("modules_invalid_discarded", Json::n(n_invalid as f64)), ("functions_rebuilt", Json::n(n_funcs as f64)), ("cases", Json::u(w.total)),
-        ("builder_calls", Json::n(n_calls as f64)), ("positional_inserts", Json::n(n_at as f64)), ("dangling_then_attached", Json::n(n_dang as f64)),
+        ("builder_calls", Json::n(n_calls as f64)), ("positional_inserts", Json::n(n_at as f64)), ("dangling_then_attached", Json::n(n_dang as f64)), ("created_before_its_enclosing_sequence", Json::n(n_early as f64)),
         ("samples", Json::Arr(samples.into_iter().map(Json::Str).collect())), ("oracle_violations", Json::Arr(viol))]);
     std::fs::write(format!("{}/meta.json", out_dir), meta.to_string()).unwrap();
 }
